@@ -51,6 +51,7 @@ type ChainContract struct {
 	IsDeleted                      bool
 	Balance                        int64
 	HasFutureTerms                 bool
+	FutureLength, FutureSpeed      int64 // what setUpdatePurchaseInformation stored while the contract was running
 }
 
 type chainSub struct {
@@ -141,6 +142,9 @@ func (c *FakeChain) CallContract(ctx context.Context, msg ethereum.CallMsg, bloc
 	case "encrDestURL":
 		return m.Outputs.Pack(ct.EncrDestURL)
 	case "futureTerms":
+		if ct.HasFutureTerms {
+			return m.Outputs.Pack(big.NewInt(ct.Price), big.NewInt(0), big.NewInt(ct.FutureSpeed), big.NewInt(ct.FutureLength), ct.Version+1, ct.ProfitTarget)
+		}
 		return m.Outputs.Pack(big.NewInt(ct.Price), big.NewInt(0), big.NewInt(ct.Speed), big.NewInt(ct.Length), ct.Version, ct.ProfitTarget)
 	}
 	return nil, fmt.Errorf("fake chain: implementation.%s not answered", m.Name)
